@@ -5,8 +5,10 @@ package main
 // database; outcome classes (ok / err / panic) compared with the model.
 
 import (
+	"bytes"
 	"encoding/json"
 	"fmt"
+	"math"
 	"math/rand"
 	"net"
 	"reflect"
@@ -137,6 +139,12 @@ func c19Correspond(r *Run, kind string, text []byte, out string, val interface{}
 		return
 	}
 	if mo.Class != out {
+		if out == "err" && mo.Class == "ok" && hasIntBeyond64(text) {
+			// the model's integers are unbounded, Go's int is 64 bits wide: encoding/json rejects a number
+			// that does not fit (a documented difference between model and code; no panic either way)
+			r.Count("decode-model:integer-beyond-64-bits")
+			return
+		}
 		r.Violation("decode-model", cs, out, mo.Class, false, "outcome class of decoding a "+kind+" differs between implementation and model", "")
 		return
 	}
@@ -506,7 +514,10 @@ func validSchemaWire(r *Run, kind string) []byte {
 		switch t {
 		case "integer":
 			if rng.Intn(2) == 0 {
-				m["minInteger"], m["maxInteger"] = 0, 10
+				// small bounds, and bounds a float64 cannot hold exactly (up to the limits of a 64-bit integer)
+				los := []int64{0, -5, -2147483648, -9007199254740993, -1152921504606846977, -9223372036854775808}
+				his := []int64{10, 4294967295, 9007199254740993, 1152921504606846979, 9223372036854775807}
+				m["minInteger"], m["maxInteger"] = los[rng.Intn(len(los))], his[rng.Intn(len(his))]
 			}
 			if rng.Intn(3) == 0 {
 				m["enum"] = []interface{}{"set", []interface{}{1, 2, 3}}
@@ -934,6 +945,11 @@ func c19Scripted(r *Run) {
 		`[{"op":"mutate","table":"` + t0 + `","where":[],"mutations":[["n","%=",0]]}]`,
 		`[{"op":"mutate","table":"` + t0 + `","where":[],"mutations":[["name","+=",1]]}]`,
 		`[{"op":"wait","table":"` + t0 + `","timeout":0}]`,
+		// waits without the optional timeout member whose condition holds at once (the stored row is not among
+		// no rows; a name nobody has selects nothing)
+		`[{"op":"wait","table":"` + t0 + `","where":[],"columns":["name"],"until":"!=","rows":[]}]`,
+		`[{"op":"wait","table":"` + t0 + `","where":[["name","==","nobody"]],"columns":["name"],"until":"==","rows":[]}]`,
+		`[{"op":"wait","table":"` + t0 + `","where":[],"columns":["name"],"until":"==","rows":[{"name":"a"}]}]`,
 		`[{"op":"wait","table":"` + t0 + `","timeout":0,"until":"==","columns":["nosuchcolumn"],"rows":[{"nosuchcolumn":1}]}]`,
 		`[{"op":"insert","table":"` + t0 + `","row":{"name":null}}]`,
 		`[{"op":"insert","table":"` + t0 + `","uuid":"not-a-uuid","row":{}}]`,
@@ -1125,4 +1141,34 @@ func c19Transact(r *Run) {
 			r.Violation("transact", cs, out.Panic, "", true, "the database does not serve a simple select after an ill-formed transaction", "")
 		}
 	}
+}
+
+// hasIntBeyond64: does the JSON text hold an integral number outside the range of a 64-bit integer?
+func hasIntBeyond64(text []byte) bool {
+	dec := json.NewDecoder(bytes.NewReader(text))
+	dec.UseNumber()
+	var v interface{}
+	if dec.Decode(&v) != nil {
+		return false
+	}
+	found := false
+	var walk func(x interface{})
+	walk = func(x interface{}) {
+		switch t := x.(type) {
+		case json.Number:
+			if f, err := t.Float64(); err == nil && f == math.Trunc(f) && (f >= 9.2233720368547e18 || f <= -9.2233720368547e18) {
+				found = true
+			}
+		case []interface{}:
+			for _, e := range t {
+				walk(e)
+			}
+		case map[string]interface{}:
+			for _, e := range t {
+				walk(e)
+			}
+		}
+	}
+	walk(v)
+	return found
 }
